@@ -39,8 +39,10 @@ type iObs struct {
 	Err      string `json:"err"`
 }
 
-func (Inflate) Name() string                    { return "Inflate" }
-func (Inflate) MC(tier string) (string, string) { return "MC_Inflate.tla", "MC_Inflate_" + tier + ".cfg" }
+func (Inflate) Name() string { return "Inflate" }
+func (Inflate) MC(tier string) (string, string) {
+	return "MC_Inflate.tla", "MC_Inflate_" + tier + ".cfg"
+}
 func (Inflate) Trace() (string, string)         { return "Trace_Inflate.tla", "Trace_Inflate.cfg" }
 func (Inflate) Cap(tier string) int             { return 0 }
 func (Inflate) Layouts(tier string) int         { return 1 }
